@@ -177,18 +177,20 @@ Proof. intros H Hc. unfold disc. rewrite H. cbn. rewrite Hc. reflexivity. Qed.
 (* ------------------------------------------------------------------------------------------- *)
 (* 4. the batch loops                                                                           *)
 (* ------------------------------------------------------------------------------------------- *)
-Lemma hloop_app f next pre : forall s rc fin rest,
-  hloop f next s rc fin (pre ++ rest) =
-  match hloop f next s rc fin pre with
-  | HDone s1 rc1 fin1 => hloop f next s1 rc1 fin1 rest
+Lemma hloop_app f cps next pre : forall s rc fin rest,
+  hloop f cps next s rc fin (pre ++ rest) =
+  match hloop f cps next s rc fin pre with
+  | HDone s1 rc1 fin1 => hloop f cps next s1 rc1 fin1 rest
   | other => other
   end.
 Proof.
   induction pre as [|h pre IH]; intros s rc fin rest; [reflexivity|].
   cbn [app hloop]. destruct (add f s h) as [s' o]. destruct o as [x| | |]; try apply IH; try reflexivity.
-  destruct next as [[H cid]|]; [|apply IH].
-  destruct (height (create_header s h) =? H); [|apply IH].
-  destruct (N.eqb (s_id h) cid); [apply IH| reflexivity].
+  destruct next as [[H cid]|].
+  - destruct (height (create_header s h) =? H).
+    + destruct (N.eqb (s_id h) cid); [apply IH| reflexivity].
+    + destruct (contradicts cps x (height (create_header s h)) (s_id h)); [reflexivity| apply IH].
+  - destruct (contradicts cps x (height (create_header s h)) (s_id h)); [reflexivity| apply IH].
 Qed.
 
 Lemma eloop_app cfg pre : forall s cur n lasth rest,
@@ -200,19 +202,22 @@ Lemma eloop_app cfg pre : forall s cur n lasth rest,
 Proof.
   induction pre as [|h pre IH]; intros s cur n lasth rest; [reflexivity|].
   cbn [app eloop]. destruct (add (x_forb cfg) s h) as [s' o]. destruct o as [x| | |]; try apply IH; try reflexivity.
+  destruct (contradicts (x_cps cfg) x (height (create_header s h)) (s_id h)); [reflexivity|].
   destruct x; try apply IH.
   destruct (verify_advance (x_cps cfg) cur (height (create_header s h)) (s_id h)); [apply IH| reflexivity].
 Qed.
 
 Definition hres_store (r : hres) : store := match r with HDone s _ _ | HBan s | HMismatch s => s end.
-Lemma hloop_no_forb f next hs : forall s rc fin, no_forb f s -> no_forb f (hres_store (hloop f next s rc fin hs)).
+Lemma hloop_no_forb f cps next hs : forall s rc fin, no_forb f s -> no_forb f (hres_store (hloop f cps next s rc fin hs)).
 Proof.
   induction hs as [|h hs IH]; intros s rc fin Hs; [exact Hs|].
   cbn [hloop]. pose proof (add_no_forb f s h Hs) as Hs'. destruct (add f s h) as [s' o]. cbn [fst] in Hs'.
   destruct o as [x| | |]; try (apply IH; exact Hs'); try exact Hs'.
-  destruct next as [[H cid]|]; [|apply IH; exact Hs'].
-  destruct (height (create_header s h) =? H); [|apply IH; exact Hs'].
-  destruct (N.eqb (s_id h) cid); [apply IH; exact Hs'| exact Hs'].
+  destruct next as [[H cid]|].
+  - destruct (height (create_header s h) =? H).
+    + destruct (N.eqb (s_id h) cid); [apply IH; exact Hs'| exact Hs'].
+    + destruct (contradicts cps x (height (create_header s h)) (s_id h)); [exact Hs'| apply IH; exact Hs'].
+  - destruct (contradicts cps x (height (create_header s h)) (s_id h)); [exact Hs'| apply IH; exact Hs'].
 Qed.
 
 Definition eres_store (r : eres) : store := match r with EDoneL s _ _ _ | EStop s _ => s end.
@@ -221,6 +226,7 @@ Proof.
   induction hs as [|h hs IH]; intros s cur n l Hs; [exact Hs|].
   cbn [eloop]. pose proof (add_no_forb (x_forb cfg) s h Hs) as Hs'. destruct (add (x_forb cfg) s h) as [s' o]. cbn [fst] in Hs'.
   destruct o as [x| | |]; try (apply IH; exact Hs'); try exact Hs'.
+  destruct (contradicts (x_cps cfg) x (height (create_header s h)) (s_id h)); [exact Hs'|].
   destruct x; try (apply IH; exact Hs').
   destruct (verify_advance (x_cps cfg) cur (height (create_header s h)) (s_id h)); [apply IH; exact Hs'| exact Hs'].
 Qed.
@@ -230,7 +236,7 @@ Qed.
 (* ------------------------------------------------------------------------------------------- *)
 Theorem rejected_peer_dropped_default cfg st p c o pre h post s1 rc1 fin1 :
   aget p (d_states st) = Some c -> d_hfm st = true -> aget p (d_objs st) = Some o -> po_conn o = true ->
-  hloop (c_forb cfg) (d_next st) (d_store st) false None pre = HDone s1 rc1 fin1 ->
+  hloop (c_forb cfg) (sm_cps cfg) (d_next st) (d_store st) false None pre = HDone s1 rc1 fin1 ->
   by_hash s1 (s_id h) = None -> memN (s_id h) (c_forb cfg) = true ->
   exists st', on_headers cfg st p (pre ++ h :: post) = (st', [Ban p; Disconnect p]) /\
     d_store st' = s1 /\ d_next st' = d_next st /\ d_hfm st' = d_hfm st /\ d_sync st' = d_sync st /\ d_states st' = d_states st.
@@ -247,7 +253,7 @@ Qed.
 Corollary rejected_peer_dropped_default' cfg st p c o pre h post s1 rc1 fin1 :
   no_forb (c_forb cfg) (d_store st) ->
   aget p (d_states st) = Some c -> d_hfm st = true -> aget p (d_objs st) = Some o -> po_conn o = true ->
-  hloop (c_forb cfg) (d_next st) (d_store st) false None pre = HDone s1 rc1 fin1 ->
+  hloop (c_forb cfg) (sm_cps cfg) (d_next st) (d_store st) false None pre = HDone s1 rc1 fin1 ->
   memN (s_id h) (c_forb cfg) = true ->
   exists st', on_headers cfg st p (pre ++ h :: post) = (st', [Ban p; Disconnect p]) /\
     d_store st' = s1 /\ d_next st' = d_next st /\ d_hfm st' = d_hfm st /\ d_sync st' = d_sync st /\ d_states st' = d_states st.
@@ -255,7 +261,7 @@ Proof.
   intros Hnf Hst Hh Ho Hc Hpre Hf.
   apply (rejected_peer_dropped_default cfg st p c o pre h post s1 rc1 fin1); auto.
   apply (no_forb_by_hash (c_forb cfg)); [|exact Hf].
-  pose proof (hloop_no_forb (c_forb cfg) (d_next st) pre (d_store st) false None Hnf) as H. rewrite Hpre in H. exact H.
+  pose proof (hloop_no_forb (c_forb cfg) (sm_cps cfg) (d_next st) pre (d_store st) false None Hnf) as H. rewrite Hpre in H. exact H.
 Qed.
 
 Theorem rejected_peer_dropped_exp cfg p st pre h post s1 cur1 n1 l1 :
@@ -275,7 +281,7 @@ Qed.
 (* ------------------------------------------------------------------------------------------- *)
 Theorem checkpoint_mismatch_default cfg st p c o pre h post s1 rc1 fin1 H cid s2 x :
   aget p (d_states st) = Some c -> d_hfm st = true -> aget p (d_objs st) = Some o -> po_conn o = true ->
-  hloop (c_forb cfg) (d_next st) (d_store st) false None pre = HDone s1 rc1 fin1 ->
+  hloop (c_forb cfg) (sm_cps cfg) (d_next st) (d_store st) false None pre = HDone s1 rc1 fin1 ->
   d_next st = Some (H, cid) ->
   add (c_forb cfg) s1 h = (s2, Stored x) -> height (create_header s1 h) = H -> s_id h <> cid ->
   exists st', on_headers cfg st p (pre ++ h :: post) = (st', [Disconnect p]) /\
@@ -297,6 +303,7 @@ Theorem checkpoint_mismatch_exp cfg p st pre h post s1 i H cid n1 l1 s2 :
   exists st', e_on_headers cfg p st (pre ++ h :: post) = (st', [Disconnect p]) /\ e_store st' = s2 /\ e_conn st' = false.
 Proof.
   intros Hc Hpre Ha Hht Hne. unfold e_on_headers. rewrite eloop_app, Hpre. cbn [eloop]. rewrite Ha.
+  destruct (contradicts (x_cps cfg) Longest (height (create_header s1 h)) (s_id h)); [rewrite Hc; eexists; split; [reflexivity|]; cbn; auto|].
   unfold verify_advance. rewrite Hht, Z.ltb_irrefl, Z.eqb_refl.
   destruct (N.eqb_spec (s_id h) cid) as [Ee|_]; [contradiction|]. rewrite Hc.
   eexists. split; [reflexivity|]. cbn. auto.
@@ -310,6 +317,7 @@ Theorem above_checkpoint_exp cfg p st pre h post s1 i H cid n1 l1 s2 :
   exists st', e_on_headers cfg p st (pre ++ h :: post) = (st', [Disconnect p]) /\ e_store st' = s2 /\ e_conn st' = false.
 Proof.
   intros Hc Hpre Ha Hht. unfold e_on_headers. rewrite eloop_app, Hpre. cbn [eloop]. rewrite Ha.
+  destruct (contradicts (x_cps cfg) Longest (height (create_header s1 h)) (s_id h)); [rewrite Hc; eexists; split; [reflexivity|]; cbn; auto|].
   unfold verify_advance.
   destruct (Z.ltb_spec (height (create_header s1 h)) H) as [Hlt|_]; [lia|].
   destruct (Z.eqb_spec (height (create_header s1 h)) H) as [He|_]; [lia|]. rewrite Hc.
@@ -471,7 +479,7 @@ Qed.
 Theorem checkpoint_match_advances_default cfg st p c hs s' fh H cid :
   aget p (d_states st) = Some c -> d_hfm st = true -> hs <> [] ->
   d_next st = Some (H, cid) ->
-  hloop (c_forb cfg) (d_next st) (d_store st) false None hs = HDone s' true (Some fh) ->
+  hloop (c_forb cfg) (sm_cps cfg) (d_next st) (d_store st) false None hs = HDone s' true (Some fh) ->
   on_headers cfg st p hs =
   match find_next_d (c_cps cfg) H with
   | Some (H', c') => send_gh (with_next (with_store st s') (Some (H', c'))) p [cid] c'
@@ -487,7 +495,7 @@ Corollary checkpoint_match_advances_default_least cfg st p c hs s' fh H cid :
   sorted (c_cps cfg) ->
   aget p (d_states st) = Some c -> d_hfm st = true -> hs <> [] ->
   d_next st = Some (H, cid) ->
-  hloop (c_forb cfg) (d_next st) (d_store st) false None hs = HDone s' true (Some fh) ->
+  hloop (c_forb cfg) (sm_cps cfg) (d_next st) (d_store st) false None hs = HDone s' true (Some fh) ->
   d_next (fst (on_headers cfg st p hs)) = least_above (c_cps cfg) H.
 Proof.
   intros Hs Hst Hh Hne Hn Hl.
@@ -499,14 +507,15 @@ Proof.
 Qed.
 
 (* when the flag was raised, the checkpoint header itself was in the batch *)
-Lemma hloop_received f H cid hs : forall s rc fin s' fin',
-  hloop f (Some (H, cid)) s rc fin hs = HDone s' true fin' -> rc = false -> exists h, In h hs /\ s_id h = cid.
+Lemma hloop_received f cps H cid hs : forall s rc fin s' fin',
+  hloop f cps (Some (H, cid)) s rc fin hs = HDone s' true fin' -> rc = false -> exists h, In h hs /\ s_id h = cid.
 Proof.
   induction hs as [|h hs IH]; intros s rc fin s' fin' Hl Hrc; [cbn in Hl; inversion Hl; congruence|].
   cbn [hloop] in Hl. destruct (add f s h) as [s1 o]. destruct o as [x| | |]; try discriminate.
   - destruct (height (create_header s h) =? H).
     + destruct (N.eqb_spec (s_id h) cid) as [E|_]; [|discriminate]. exists h. split; [left; reflexivity| exact E].
-    + destruct (IH _ _ _ _ _ Hl Hrc) as (h' & Hin & E). exists h'. split; [right; exact Hin| exact E].
+    + destruct (contradicts cps x (height (create_header s h)) (s_id h)); [discriminate|].
+      destruct (IH _ _ _ _ _ Hl Hrc) as (h' & Hin & E). exists h'. split; [right; exact Hin| exact E].
   - destruct (IH _ _ _ _ _ Hl Hrc) as (h' & Hin & E). exists h'. split; [right; exact Hin| exact E].
   - destruct (IH _ _ _ _ _ Hl Hrc) as (h' & Hin & E). exists h'. split; [right; exact Hin| exact E].
 Qed.
@@ -514,7 +523,7 @@ Qed.
 (* with no checkpoint left every further request is unbounded (zero stop hash) *)
 Theorem no_checkpoint_left_zero_stop cfg st p c hs s' rc fh :
   aget p (d_states st) = Some c -> d_hfm st = true -> hs <> [] -> d_next st = None ->
-  hloop (c_forb cfg) None (d_store st) false None hs = HDone s' rc (Some fh) ->
+  hloop (c_forb cfg) (sm_cps cfg) None (d_store st) false None hs = HDone s' rc (Some fh) ->
   on_headers cfg st p hs = send_gh (with_store st s') p (locator s') 0%N.
 Proof.
   intros Hst Hh Hne Hn Hl. unfold on_headers. rewrite Hst, Hh, Hn. cbn [negb].
@@ -567,8 +576,8 @@ Proof.
   intros Hs. unfold on_headers. destruct (aget p (d_states st)); [|exact Hs].
   destruct (negb (d_hfm st)); [destruct (disc_frame st p) as (E & _); rewrite E; exact Hs|].
   destruct hs as [|h0 hs0]; [exact Hs|].
-  pose proof (hloop_no_forb (c_forb cfg) (d_next st) (h0 :: hs0) (d_store st) false None Hs) as Hl.
-  destruct (hloop (c_forb cfg) (d_next st) (d_store st) false None (h0 :: hs0)) as [s' rc fin|s'|s']; cbn [hres_store] in Hl.
+  pose proof (hloop_no_forb (c_forb cfg) (sm_cps cfg) (d_next st) (h0 :: hs0) (d_store st) false None Hs) as Hl.
+  destruct (hloop (c_forb cfg) (sm_cps cfg) (d_next st) (d_store st) false None (h0 :: hs0)) as [s' rc fin|s'|s']; cbn [hres_store] in Hl.
   - destruct fin as [fh|]; [|exact Hl].
     destruct (if rc then d_next st else None) as [[H cid]|].
     + destruct (find_next_d (c_cps cfg) H) as [[H' c']|].
@@ -685,7 +694,7 @@ Theorem rejected_peer_dropped_every_time cfg s0 evs p c o pre h post s1 rc1 fin1
   no_forb (c_forb cfg) s0 ->
   let st := d_run cfg (d_init cfg s0) evs in
   aget p (d_states st) = Some c -> d_hfm st = true -> aget p (d_objs st) = Some o -> po_conn o = true ->
-  hloop (c_forb cfg) (d_next st) (d_store st) false None pre = HDone s1 rc1 fin1 ->
+  hloop (c_forb cfg) (sm_cps cfg) (d_next st) (d_store st) false None pre = HDone s1 rc1 fin1 ->
   memN (s_id h) (c_forb cfg) = true ->
   exists st', on_headers cfg st p (pre ++ h :: post) = (st', [Ban p; Disconnect p]) /\ d_store st' = s1.
 Proof.
@@ -696,20 +705,188 @@ Proof.
 Qed.
 
 (* ------------------------------------------------------------------------------------------- *)
-(* 11. refuted for the default engine as it is: only the checkpoint the cursor points at is compared.  Peer 7 brings
-       20 <- 21 <- 22 (checkpoint: height 3 = 22); afterwards peer 8 delivers 2 <- 3 <- 4 <- 5 <- 6: header 4 at height 3
-       contradicts the passed checkpoint, the branch overtakes the tip, is adopted, and its sender is asked for more *)
+(* 11. every configured checkpoint is enforced, not only the cursor's (fc399a8, a26f54a)        *)
+(*     History: before these commits the default engine compared only the checkpoint its cursor pointed at - a branch
+       contradicting an already PASSED checkpoint that overtook the tip was adopted with its sender kept
+       (passed_checkpoint_fork_adopted_refuted, a vm_compute witness on the old model) - and the experimental engine compared
+       only longest-chain headers, so a stale contradicting header kept its sender.                                      *)
 (* ------------------------------------------------------------------------------------------- *)
-Definition exA : list src := [ex_sub 20 1 545259519; ex_sub 21 20 545259519; ex_sub 22 21 545259519].
-Definition exB : list src := map (fun i => ex_sub i (i - 1) 545259519) [2; 3; 4; 5; 6]%N.
-Theorem passed_checkpoint_fork_adopted_refuted :
-  let cfg := {| c_cps := [(3, 22%N)]; c_disable := false; c_forb := []; c_now := 0 |} in
-  let st0 := fst (on_new_peer cfg 0 (d_init cfg (init 1 (ex_pl 486604799))) 7 true 3) in
-  let st1 := fst (on_headers cfg st0 7 exA) in                                   (* the checkpoint is reached and passed *)
-  let st2 := fst (on_new_peer cfg 0 st1 8 true 5) in
-  let '(st3, es) := on_headers cfg st2 8 exB in
-  d_next st1 = None /\ option_map id (tipB (d_store st1)) = Some 22%N /\
-  option_map id (tipB (d_store st3)) = Some 6%N /\                               (* a chain whose header at height 3 is 4, not 22 *)
-  (exists r, by_hash (d_store st3) 4%N = Some r /\ height r = 3 /\ st r = Longest) /\
-  es = [GetHeaders 8 [6; 5; 4; 3; 2; 1]%N 0%N].                                  (* sender kept and asked for more *)
-Proof. vm_compute. repeat split; try reflexivity. eexists. repeat split; reflexivity. Qed.
+Lemma contradicts_spec cps x hh i : contradicts cps x hh i = true <->
+  x <> Orphan /\ exists c, In c cps /\ fst c = hh /\ snd c <> i.
+Proof.
+  unfold contradicts. rewrite andb_true_iff, negb_true_iff, existsb_exists. split.
+  - intros [Hx (c & Hc & Hb)]. apply andb_true_iff in Hb. destruct Hb as [Hh Hn]. apply Z.eqb_eq in Hh. apply negb_true_iff in Hn.
+    split; [intros E; subst x; discriminate|]. exists c. split; [exact Hc|]. split; [exact Hh|]. intros E. rewrite E, N.eqb_refl in Hn. discriminate.
+  - intros [Hx (c & Hc & Hh & Hn)]. split; [destruct x; try reflexivity; contradiction|].
+    exists c. split; [exact Hc|]. apply andb_true_iff. split; [apply Z.eqb_eq; exact Hh|]. apply negb_true_iff. apply N.eqb_neq. exact Hn.
+Qed.
+
+(* a list with one checkpoint per height (every sorted list is one) *)
+Definition cps_functional (cps : list cp) : Prop := forall c1 c2, In c1 cps -> In c2 cps -> fst c1 = fst c2 -> c1 = c2.
+(* the cursor is an entry of the manager's list - an invariant of every reachable state (cursor_in_reachable below) *)
+Definition cursor_in (cfg : dcfg) (st : dstate) : Prop := forall c, d_next st = Some c -> In c (sm_cps cfg).
+
+(* default engine: ANY batch, ANY state in which the sender is known and connected: a header that Add stores as a non-orphan at
+   the height of ANY checkpoint of the manager's list with another hash -> exactly [Disconnect p], nothing requested, the rest
+   of the batch not ingested; the cursor and the sync peer are untouched *)
+Theorem checkpoint_contradiction_any_checkpoint_default cfg st p c o pre h post s1 rc1 fin1 s2 x cp0 :
+  cps_functional (sm_cps cfg) -> cursor_in cfg st ->
+  aget p (d_states st) = Some c -> d_hfm st = true -> aget p (d_objs st) = Some o -> po_conn o = true ->
+  hloop (c_forb cfg) (sm_cps cfg) (d_next st) (d_store st) false None pre = HDone s1 rc1 fin1 ->
+  add (c_forb cfg) s1 h = (s2, Stored x) -> x <> Orphan ->
+  In cp0 (sm_cps cfg) -> fst cp0 = height (create_header s1 h) -> snd cp0 <> s_id h ->
+  exists st', on_headers cfg st p (pre ++ h :: post) = (st', [Disconnect p]) /\
+    d_store st' = s2 /\ d_next st' = d_next st /\ d_hfm st' = d_hfm st /\ d_sync st' = d_sync st /\ d_states st' = d_states st.
+Proof.
+  intros Hfun Hcur Hst Hh Ho Hc Hpre Ha Hx Hin Hht Hne. unfold on_headers. rewrite Hst, Hh. cbn [negb].
+  destruct (pre ++ h :: post) eqn:E; [destruct pre; discriminate|]. rewrite <- E. clear E.
+  rewrite hloop_app, Hpre. cbn [hloop]. rewrite Ha.
+  assert (Hcon: contradicts (sm_cps cfg) x (height (create_header s1 h)) (s_id h) = true).
+  { apply contradicts_spec. split; [exact Hx|]. exists cp0. auto. }
+  assert (Hres: (match d_next st with
+                 | Some (H, cid) =>
+                   if height (create_header s1 h) =? H
+                   then (if N.eqb (s_id h) cid then hloop (c_forb cfg) (sm_cps cfg) (d_next st) s2 true (match x with Longest => Some (s_id h) | _ => fin1 end) post else HMismatch s2)
+                   else if contradicts (sm_cps cfg) x (height (create_header s1 h)) (s_id h) then HMismatch s2
+                   else hloop (c_forb cfg) (sm_cps cfg) (d_next st) s2 rc1 (match x with Longest => Some (s_id h) | _ => fin1 end) post
+                 | None => if contradicts (sm_cps cfg) x (height (create_header s1 h)) (s_id h) then HMismatch s2
+                           else hloop (c_forb cfg) (sm_cps cfg) (d_next st) s2 rc1 (match x with Longest => Some (s_id h) | _ => fin1 end) post
+                 end) = HMismatch s2).
+  { destruct (d_next st) as [[H cid]|] eqn:En; [|rewrite Hcon; reflexivity].
+    destruct (Z.eqb_spec (height (create_header s1 h)) H) as [EH|_]; [|rewrite Hcon; reflexivity].
+    destruct (N.eqb_spec (s_id h) cid) as [Ec|_]; [|reflexivity]. exfalso.
+    (* the header IS the cursor's checkpoint: a second entry at that height with another hash contradicts functionality *)
+    assert (Ecp: cp0 = (H, cid)) by (apply Hfun; [exact Hin| apply Hcur; exact En| cbn; congruence]).
+    apply Hne. rewrite Ecp. cbn. congruence. }
+  rewrite Hres.
+  pose proof (disc_frame (with_store st s2) p) as Hfr. pose proof (disc_connected (with_store st s2) p o Ho Hc) as He.
+  destruct (disc (with_store st s2) p) as [st1 e1]. cbn [fst snd] in *. subst e1.
+  exists st1. split; [reflexivity|]. cbn in Hfr. rewrite ?Hh in Hfr. exact Hfr.
+Qed.
+
+(* experimental engine: the same for ANY state of a connected peer and ANY batch - stale or longest alike *)
+Theorem checkpoint_contradiction_any_checkpoint_exp cfg p st pre h post s1 cur1 n1 l1 s2 x cp0 :
+  e_conn st = true ->
+  eloop cfg (e_store st) (e_cur st) O 0 pre = EDoneL s1 cur1 n1 l1 ->
+  add (x_forb cfg) s1 h = (s2, Stored x) -> x <> Orphan ->
+  In cp0 (x_cps cfg) -> fst cp0 = height (create_header s1 h) -> snd cp0 <> s_id h ->
+  exists st', e_on_headers cfg p st (pre ++ h :: post) = (st', [Disconnect p]) /\ e_store st' = s2 /\ e_conn st' = false /\ e_cur st' = cur1.
+Proof.
+  intros Hc Hpre Ha Hx Hin Hht Hne. unfold e_on_headers. rewrite eloop_app, Hpre. cbn [eloop]. rewrite Ha.
+  assert (Hcon: contradicts (x_cps cfg) x (height (create_header s1 h)) (s_id h) = true).
+  { apply contradicts_spec. split; [exact Hx|]. exists cp0. auto. }
+  rewrite Hcon, Hc. eexists. split; [reflexivity|]. cbn. auto.
+Qed.
+
+(* ---- cursor_in holds in every reachable state of the default engine ---- *)
+Lemma scan_back_in l : forall h acc, scan_back l h acc = acc \/ In (scan_back l h acc) l.
+Proof.
+  induction l as [|c l IH]; intros h acc; [left; reflexivity|]. cbn [scan_back].
+  destruct (fst c <=? h); [left; reflexivity|]. destruct (IH h c) as [E|Hin]; right; [left; symmetry; exact E| right; exact Hin].
+Qed.
+
+Lemma find_next_d_in cps h c : find_next_d cps h = Some c -> In c cps.
+Proof.
+  unfold find_next_d. destruct (rev cps) as [|final rest] eqn:Er; [discriminate|].
+  destruct (fst final <=? h); [discriminate|]. intros E. inversion E; subst c. apply in_rev. rewrite Er.
+  destruct (scan_back_in rest h final) as [E1|Hin]; [rewrite E1; left; reflexivity| right; exact Hin].
+Qed.
+
+Lemma sm_cps_in_enabled cfg c : In c (sm_cps cfg) -> sm_cps cfg = c_cps cfg.
+Proof. unfold sm_cps. destruct (c_disable cfg); [intros []| reflexivity]. Qed.
+
+Lemma start_sync_next cfg hint st : d_next (fst (start_sync cfg hint st)) = d_next st.
+Proof.
+  unfold start_sync. destruct (d_sync st); [reflexivity|].
+  match goal with |- context [match ?pk with Some p => _ | None => _ end] => destruct pk as [p|] end; [|reflexivity].
+  cbv zeta.
+  match goal with |- context [let '(a, b) := ?X in _] => destruct X as [st1 e1] eqn:E end. cbn [fst].
+  change (d_next (with_sync st1 (Some p))) with (d_next st1).
+  destruct (d_next (with_states st _)) as [[H cid]|] eqn:En.
+  - destruct (tip_height (d_store st) <? H).
+    + match type of E with send_gh ?a ?b ?c ?d = _ => pose proof (send_gh_frame a b c d) as Hf end. rewrite E in Hf. cbn in Hf. apply Hf.
+    + match type of E with send_gh ?a ?b ?c ?d = _ => pose proof (send_gh_frame a b c d) as Hf end. rewrite E in Hf. cbn in Hf. apply Hf.
+  - match type of E with send_gh ?a ?b ?c ?d = _ => pose proof (send_gh_frame a b c d) as Hf end. rewrite E in Hf. cbn in Hf. apply Hf.
+Qed.
+
+Lemma update_sync_peer_next cfg hint st : d_next (fst (update_sync_peer cfg hint st)) = d_next st.
+Proof.
+  unfold update_sync_peer. destruct (d_sync st) as [sp|]; [|reflexivity].
+  pose proof (disc_frame st sp) as Hd. destruct (disc st sp) as [st1 e1]. cbn [fst] in Hd.
+  pose proof (start_sync_next cfg hint (with_sync st1 None)) as Hs.
+  destruct (start_sync cfg hint (with_sync st1 None)) as [st2 e2]. cbn [fst] in *. rewrite Hs. cbn. apply Hd.
+Qed.
+
+Lemma d_step_next_other cfg hint st e : (forall p hs, e <> EHeaders p hs) -> d_next (fst (d_step cfg hint st e)) = d_next st.
+Proof.
+  intros Hne. destruct e as [p cand lb|p hs|p l|p|aged|p cand lb]; cbn [d_step].
+  - unfold on_new_peer. destruct (_ && _); [|reflexivity]. rewrite start_sync_next. reflexivity.
+  - exfalso. apply (Hne p hs). reflexivity.
+  - unfold on_inv. destruct (aget p (d_states st)); [|reflexivity].
+    destruct (_ && _); [reflexivity|]. destruct (current cfg st) as [cur|]; [|reflexivity].
+    destruct (_ && _); [reflexivity|]. destruct (last_block l) as [h|]; [|reflexivity].
+    destruct (if cur then by_hash (d_store st) h else None).
+    + destruct (aget p (d_objs st)); reflexivity.
+    + apply send_gh_frame.
+  - unfold on_done. destruct (aget p (d_states st)); [|reflexivity].
+    destruct (opt_eqb (d_sync st) p); [|reflexivity]. rewrite update_sync_peer_next. reflexivity.
+  - unfold on_tick. destruct (d_sync st) as [sp|]; [|reflexivity]. destruct (negb aged); [reflexivity|].
+    destruct (_ =? _); [reflexivity|]. destruct (aget sp (d_states st)); [|reflexivity]. apply update_sync_peer_next.
+  - unfold on_new_peer_gone. destruct (_ && _); [|reflexivity]. rewrite start_sync_next. reflexivity.
+Qed.
+
+Lemma on_headers_cursor_in cfg st p hs : cursor_in cfg st -> cursor_in cfg (fst (on_headers cfg st p hs)).
+Proof.
+  intros Hcur. unfold on_headers. destruct (aget p (d_states st)); [|exact Hcur].
+  destruct (negb (d_hfm st)); [intros c Hc; apply Hcur; destruct (disc_frame st p) as (_ & E & _); rewrite <- E; exact Hc|].
+  destruct hs as [|h0 hs0]; [exact Hcur|].
+  destruct (hloop (c_forb cfg) (sm_cps cfg) (d_next st) (d_store st) false None (h0 :: hs0)) as [s' rc fin|s'|s'].
+  - destruct fin as [fh|]; [|exact Hcur].
+    destruct (if rc then d_next st else None) as [[H cid]|] eqn:Erc.
+    + assert (Hold: In (H, cid) (sm_cps cfg)) by (destruct rc; [apply Hcur; exact Erc| discriminate]).
+      destruct (find_next_d (c_cps cfg) H) as [[H' c']|] eqn:Ef.
+      * intros c Hc. match type of Hc with d_next (fst (send_gh ?a ?b ?d ?e)) = _ => destruct (send_gh_frame a b d e) as (_ & E & _) end.
+        rewrite E in Hc. cbn in Hc. inversion Hc; subst c. rewrite (sm_cps_in_enabled cfg _ Hold). exact (find_next_d_in _ _ _ Ef).
+      * intros c Hc. match type of Hc with d_next (fst (send_gh ?a ?b ?d ?e)) = _ => destruct (send_gh_frame a b d e) as (_ & E & _) end.
+        rewrite E in Hc. cbn in Hc. discriminate.
+    + destruct (d_next st) as [[H c0]|] eqn:En.
+      * intros c Hc. match type of Hc with d_next (fst (send_gh ?a ?b ?d ?e)) = _ => destruct (send_gh_frame a b d e) as (_ & E & _) end.
+        rewrite E in Hc. cbn in Hc. apply Hcur. exact Hc.
+      * intros c Hc. match type of Hc with d_next (fst (send_gh ?a ?b ?d ?e)) = _ => destruct (send_gh_frame a b d e) as (_ & E & _) end.
+        rewrite E in Hc. cbn in Hc. rewrite En in Hc. discriminate.
+  - pose proof (disc_frame (with_store st s') p) as (_ & E & _). destruct (disc (with_store st s') p) as [st1 e1]. cbn [fst] in *.
+    intros c Hc. apply Hcur. rewrite <- Hc, E. reflexivity.
+  - intros c Hc. apply Hcur. destruct (disc_frame (with_store st s') p) as (_ & E & _). rewrite <- Hc, E. reflexivity.
+Qed.
+
+Theorem cursor_in_reachable cfg s evs : cursor_in cfg (d_run cfg (d_init cfg s) evs).
+Proof.
+  assert (H0: cursor_in cfg (d_init cfg s)).
+  { intros c Hc. unfold d_init in Hc. cbn [d_next] in Hc. unfold sm_cps. destruct (c_disable cfg); [discriminate|]. exact (find_next_d_in _ _ _ Hc). }
+  revert H0. generalize (d_init cfg s). induction evs as [|[hint e] evs IH]; intros st Hst; [exact Hst|].
+  cbn [d_run]. apply IH. destruct e as [p cand lb|p hs|p l|p|aged|p cand lb];
+    try (intros c Hc; apply Hst; rewrite <- Hc; symmetry; apply d_step_next_other; intros; discriminate).
+  cbn [d_step]. apply on_headers_cursor_in. exact Hst.
+Qed.
+
+(* the statement for every reachable state of the default engine *)
+Corollary checkpoint_contradiction_reachable_default cfg s0 evs p c o pre h post s1 rc1 fin1 s2 x cp0 :
+  cps_functional (sm_cps cfg) ->
+  let st := d_run cfg (d_init cfg s0) evs in
+  aget p (d_states st) = Some c -> d_hfm st = true -> aget p (d_objs st) = Some o -> po_conn o = true ->
+  hloop (c_forb cfg) (sm_cps cfg) (d_next st) (d_store st) false None pre = HDone s1 rc1 fin1 ->
+  add (c_forb cfg) s1 h = (s2, Stored x) -> x <> Orphan ->
+  In cp0 (sm_cps cfg) -> fst cp0 = height (create_header s1 h) -> snd cp0 <> s_id h ->
+  exists st', on_headers cfg st p (pre ++ h :: post) = (st', [Disconnect p]) /\ d_store st' = s2 /\ d_next st' = d_next st.
+Proof.
+  intros Hfun st Hst Hh Ho Hc Hpre Ha Hx Hin Hht Hne.
+  destruct (checkpoint_contradiction_any_checkpoint_default cfg st p c o pre h post s1 rc1 fin1 s2 x cp0 Hfun (cursor_in_reachable cfg s0 evs) Hst Hh Ho Hc Hpre Ha Hx Hin Hht Hne)
+    as (st' & E & Es & En & _).
+  exists st'. auto.
+Qed.
+
+Lemma sorted_functional cps : sorted cps -> cps_functional cps.
+Proof.
+  induction cps as [|a l IH]; intros Hs c1 c2 H1 H2 E; [inversion H1|]. destruct Hs as [Ha Hs].
+  destruct H1 as [<-|H1], H2 as [<-|H2]; [reflexivity| specialize (Ha _ H2); lia| specialize (Ha _ H1); lia| apply IH; assumption].
+Qed.
